@@ -900,6 +900,20 @@ class SVG:
 
         return (shape, stroke)
 
+    def _fill_in_user_space(self, shape, shape_bbox):
+        if not shape.fill.startswith("url("):
+            return
+        fill_els = self.xpath(_xpath_for_url(shape.fill, "*"))
+        if len(fill_els) != 1 or not _is_gradient(fill_els[0].tag):
+            return
+        fill_el = fill_els[0]
+        if fill_el.attrib.get("gradientUnits") == "userSpaceOnUse":
+            return
+        fill_el = self._transformed_gradient(
+            fill_el.getparent(), fill_el, Affine2D.identity(), shape_bbox
+        )
+        shape.fill = f"url(#{fill_el.attrib['id']})"
+
     def clip_to_viewbox(self, inplace=False):
         if not inplace:
             svg = self._clone()
@@ -931,6 +945,9 @@ class SVG:
                 .absolute(inplace=True)
             )
             shape = shape.as_path().absolute(inplace=True)
+            # a paint in bounding box units is laid out on the box of the shape as
+            # drawn; pin it there before the box shrinks
+            self._fill_in_user_space(shape, bbox)
             shape.update_path(
                 intersection(
                     (shape, clip_path),
@@ -951,6 +968,10 @@ class SVG:
         for context in reversed(list(self.depth_first())):
             if _is_group(context.element):
                 _try_remove_group(context.element)
+
+        # and gradients whose users are gone or got their own copy
+        if updates:
+            self._remove_orphaned_gradients()
 
         return self
 
